@@ -25,7 +25,7 @@ CORE = ['a', ' ', '\n', '-', ':', '[', ']', '{', '}', ',', '?', '#', '&', '*', '
 
 def bounds(tier, seed):
     q = tier == 'quick'
-    return {'n': N0, 'sizes': [N0, 2 * N0, 4 * N0], 'ratio_limit': TOL, 'generated_unit_len': 2, 'generated_alphabet': 14 if q else len(CORE),
+    return {'n': N0, 'sizes': [N0, 2 * N0, 4 * N0], 'ratio_limit': TOL, 'generated_unit_len': 2 if q else '2 over 25 symbols, 3 over the 14-symbol core', 'generated_alphabet': 14 if q else len(CORE),
             'frames': 7, 'quick_slice': 'units over the full 25-symbol alphabet with index % 8 == seed % 8 in addition to all units over the 14-symbol core' if q else None}
 
 
@@ -266,6 +266,9 @@ def plan(tier, seed):
     NP = 48
     for k in range(NP):
         jobs.append(('gen', k, NP, q, seed % 8))
+    if not q:
+        for k in range(256):
+            jobs.append(('gen3', k, 256))
     return jobs
 
 
@@ -300,6 +303,19 @@ def run_job(job, T):
         v = dump_values()[job[1]]
         measure(T, 'dump', 'dump-wildcard-resolver:' + job[1], lambda n: (lambda val=v(n): yaml.dump(val, Dumper=WildDumper)))
         T.sample('dump', {'family': 'wildcard-resolver:' + job[1]})
+    elif kind == 'gen3':
+        _, k, np_ = job
+        i = 0
+        last = None
+        for u in (a + b + c for a in CORE[:14] for b in CORE[:14] for c in CORE[:14]):
+            for fn, fr in FRAMES:
+                i += 1
+                if i % np_ != k:
+                    continue
+                measure(T, 'generated', 'gen:%s:%r' % (fn, u), lambda n, fr=fr, u=u: _load(fr(u, n)))
+                last = (fn, u)
+        if last:
+            T.sample('generated', {'frame': last[0], 'unit': last[1]})
     elif kind == 'gen':
         _, k, np_, q, sl = job
         core14 = set(CORE[:14])
